@@ -13,7 +13,7 @@ From PV Require Import Model.Registry Proofs.RegistryFacts Proofs.RegistryProofs
 From PV Require Import Model.RegistryConc Proofs.RegistryConcProofs Model.RegisterHelpers Proofs.RegisterHelpersProofs.
 From PV Require Import Model.RegistrySection Proofs.RegistrySectionProofs.
 From PV Require Import Model.RegistryDecode Proofs.RegistryDecodeProofs.
-From PV Require Import Model.RegistryOverlay Proofs.RegistryOverlayProofs.
+From PV Require Import Model.RegistryOverlay Proofs.RegistryOverlayProofs Proofs.RegistryOverlayEmbed.
 From Coq Require Import String.
 Import ListNotations.
 
@@ -441,6 +441,16 @@ Theorem C18_named_creation : forall l r v,
   nregister_all [] l = Some r -> named_spec_b l v (create_named r v) = true.
 Proof. exact create_named_spec. Qed.
 Print Assumptions C18_named_creation.
+
+(* the round-7 decoder (config = the scalars a, b, c: hook_oracle, the fill of the registry-level
+   theorems C18_settings_rejected / C18_settings_new_config / C18_settings_factory_config) IS the
+   general decoder on the struct {a; b; c} of number fields: same result, same failures *)
+Theorem C18_overlay_extends_settings : forall u seen,
+  dec_cfg (embed_cfg seen) (embed_set u) =
+    if Nat.eqb (snd (decode_map FldABC u seen)) 0
+    then Some (embed_cfg (fst (decode_map FldABC u seen))) else None.
+Proof. exact decode_map_is_instance. Qed.
+Print Assumptions C18_overlay_extends_settings.
 
 (* non-vacuity: default {labels: {1: 10, 2: 20}, n: 5, l: [1;2;3], sub: (x = 1, y = 2)} under the section
    {labels: {2: 99}, sub: {y: 7}, n: nil}: labels keeps key 1, sub keeps x, n keeps 5, l untouched;
